@@ -94,6 +94,8 @@ def render_expr(e):
         return f"{render_expr(e['recv'])}.{e['name']}(" + ", ".join(render_expr(a) for a in e["args"]) + ")"
     if k == "ctor":
         return f"{e['name']}{{N}}(" + ", ".join(f"{n}={render_expr(v)}" for n, v in zip(e["fnames"], e["args"])) + ")"
+    if k == "ctord":
+        return f"{e['name']}{{N}}(" + ", ".join(f"{n}={render_expr(v)}" for n, v in zip(e["fnames"], e["args"])) + ")"
     if k == "tuple":
         return "(" + ", ".join(render_expr(a) for a in e["items"]) + ("," if len(e["items"]) == 1 else "") + ")"
     if k == "tfield":
@@ -199,6 +201,8 @@ def render_stmt(s, ind):
         return [f"{pad}for {s['var']} in {render_expr(s['iter'])}:"] + render_block(s["body"], ind + 1)
     if k == "setidx":
         return [f"{pad}{s['name']}[{render_expr(s['idx'])}] = {render_expr(s['e'])}"]
+    if k == "setfield":
+        return [f"{pad}{render_expr(s['target'])} {s['op']}= {render_expr(s['e'])}"]
     if k == "matchs":
         out = [f"{pad}match {render_expr(s['subj'])}:"]
         for a in s["arms"]:
@@ -210,6 +214,39 @@ def render_stmt(s, ind):
             out += render_block(a["body"], ind + 2)
         return out
     raise ValueError(f"render_stmt: unknown kind {k}")
+
+
+def render_typedecls(decls):
+    """GenObj's DECLS record (types + traits) -> source text; type names carry the per-case suffix {N}"""
+    out = []
+    tyname = lambda t: t if t in ("int", "float", "bool", "str") else t + "{N}"
+
+    def method(m, ind):
+        pad = " " * (4 * ind)
+        recv = "mut self" if m["recv"] == "mutself" else "self"
+        ps = ", ".join([recv] + [f"{p['name']}: {TY[p['ty']]}" for p in m["params"]])
+        head = f"{pad}def {m['name']}({ps}) -> {TY[m['ret']]}"
+        if not m["body"]:
+            return [head]
+        return [head + ":"] + render_block(m["body"], ind + 1)
+    for t in decls["traits"]:
+        out.append(f"trait {t['name']}{{N}}:")
+        for m in t["methods"]:
+            out += method(m, 1) + [""]
+    for t in decls["types"]:
+        head = f"{t['kind']} {t['name']}{{N}}"
+        if t["parent"]:
+            head += f" extends {t['parent']}{{N}}"
+        if t["traits"]:
+            head += " with " + ", ".join(x + "{N}" for x in t["traits"])
+        out.append(head + ":")
+        dflt = {d["name"]: d["e"] for d in t["defaults"]}
+        for f in t["fields"]:
+            out.append(f"    {f['name']}: {tyname(f['ty'])}" + (f" = {render_expr(dflt[f['name']])}" if f["name"] in dflt else ""))
+        out.append("")
+        for m in t["methods"]:
+            out += method(m, 1) + [""]
+    return "\n".join(out) + "\n"
 
 
 def render_fn(f):
@@ -235,7 +272,7 @@ def to_project_expr(e):
         if lk == "str":
             return {"k": "lit", "lk": "str", "sv": scalars_to_str(e["sv"])}
     if k == "ident":
-        return {"k": "ident", "name": e["name"]}
+        return {"k": "self"} if e["name"] == "self" else {"k": "ident", "name": e["name"]}
     if k == "paren":
         return {"k": "paren", "e": to_project_expr(e["e"])}
     if k == "un":
@@ -269,6 +306,9 @@ def to_project_expr(e):
         return {"k": "lit", "lk": "none"}
     if k == "try":
         return {"k": "try", "e": to_project_expr(e["e"])}
+    if k == "ctord":
+        return {"k": "call", "f": {"k": "ident", "name": e["name"]},
+                "args": [{"ak": "named", "name": n, "e": to_project_expr(a)} for n, a in zip(e["fnames"], e["args"])]}
     if k == "tuple":
         return {"k": "tuple", "items": [to_project_expr(a) for a in e["items"]]}
     if k == "tfield":
@@ -365,6 +405,11 @@ def to_project_stmt(s):
         return {"k": "while", "cond": to_project_expr(s["cond"]), "body": to_project_block(s["body"])}
     if k == "for":
         return {"k": "for", "var": s["var"], "iter": to_project_expr(s["iter"]), "body": to_project_block(s["body"])}
+    if k == "setfield":
+        if s["op"]:      # the parser desugars `p.f op= e` into `p.f = p.f op e`
+            return {"k": "fassign", "obj": to_project_expr(s["target"]["obj"]), "field": s["target"]["field"],
+                    "e": {"k": "bin", "op": s["op"], "l": to_project_expr(s["target"]), "r": to_project_expr(s["e"])}}
+        return {"k": "fassign", "obj": to_project_expr(s["target"]["obj"]), "field": s["target"]["field"], "e": to_project_expr(s["e"])}
     if k == "setidx":
         return {"k": "iassign", "obj": {"k": "ident", "name": s["name"]}, "idx": to_project_expr(s["idx"]), "e": to_project_expr(s["e"])}
     if k == "matchs":
